@@ -165,6 +165,23 @@ def check(recipe) -> list[Fail]:
                     fails[-1].sig = fails[-1].sig.replace("field-differs", "second-read-differs")
                     return
 
+        def read_items(handle, route):
+            # the Mapping views of the library: items() pairs every key with ITS object, values() holds the same objects
+            try:
+                pairs = list(handle.items())
+                vals = list(handle.values())
+            except Exception as e:
+                from vf.core import exc_sig
+                fails.append(Fail(f"{kind}_v{v}:items-raises:{exc_sig(e) or type(e).__name__}", f"{route}: {e!r}"))
+                return
+            if sorted(k for k, _ in pairs) != sorted(keys) or len(vals) != len(keys):
+                fails.append(Fail(f"{kind}_v{v}:items-key-set-differs", f"{route}: {sorted(k for k, _ in pairs)!r} vs {sorted(keys)!r}; {len(vals)} values"))
+                return
+            for k, got in pairs:
+                if not compare(got, keys.index(k), route + " via items()"):
+                    fails[-1].sig = f"{kind}_v{v}:items-pairs-key-with-another-object"
+                    return
+
         try:
             with lib.writing():
                 for k, o in zip(keys, objs):
@@ -184,6 +201,8 @@ def check(recipe) -> list[Fail]:
         lib2 = _lib(kind, path, encoding=enc)
         with lib2.reading():
             read_all(lib2, "new handle")
+            if not fails:
+                read_items(lib2, "new handle")
         if v == 1 and not fails:
             # legacy files written by somebody else: records encoded by the harness' own v1 encoder
             # (schema tuples as documented in io.py), stored under the legacy magic, read through the library
